@@ -22,6 +22,17 @@ Theorem c10_inv_every_prefix : forall c evs k,
 Proof. exact every_prefix_live_ok. Qed.
 Print Assumptions c10_inv_every_prefix.
 
+(* The same in terms of the parse result alone: every URI listed names a file that exists, is closed, is whole TS
+   packets and begins with PAT/PMT, and its listed duration rounded to the nearest second is at most the target. *)
+Theorem c10_parsed_playlist_consistent : forall c evs k f t,
+  cfg_ok c -> wf_evs c Clean evs ->
+  fs_lookup PLive (state_at c evs k) = Some f -> parse_live (fdata f) = Some t ->
+  forall ts, In ts (t_segs t) ->
+    (t_ms ts + 500) / 1000 <= t_target t /\
+    exists sg, t_uri ts = seg_name (c_stream c) sg /\ seg_file_ok (state_at c evs k) sg.
+Proof. exact every_prefix_parsed. Qed.
+Print Assumptions c10_parsed_playlist_consistent.
+
 (* The media sequence number never decreases from one instant to a later one (as long as the directory is not
    removed in between): whatever the two texts parse to. *)
 Theorem c10_media_sequence_monotone : forall c evs j k fj fk tj tk,
